@@ -625,6 +625,13 @@ func Match(pattern string, t *Term) (Binds, bool) {
 
 // MatchAny tries the patterns in order.
 func MatchAny(t *Term, patterns ...string) (Binds, bool) {
+	// every alternative is parsed, also those behind the first match: a malformed pattern must surface on the
+	// pinned tree, not on the first tree that needs it
+	for _, p := range patterns {
+		if _, ok := patCache[p]; !ok {
+			patCache[p] = ParsePat(p)
+		}
+	}
 	for _, p := range patterns {
 		if b, ok := Match(p, t); ok {
 			return b, true
